@@ -24,14 +24,20 @@ git apply /tmp/$id.patch
 echo "demo: with=$with (want !=0) without=$without (want 0)"
 echo "== repo tests with change"
 go build ./... && go build -tags verif ./... && go test -vet=off -count=1 $(go list ./... | grep -v seed_demo) 2>&1 | grep -v "^ok\|no test files" | grep -v "av/format/flv\|av/format/mpegts\|av/format/rtp\|^---\|^    \|^FAIL$\|panic\|goroutine\|^\s\|^$\|testing\.\|created by\|exit status" | head
-echo "== applying to /repo and running checks: $*"
-cd /repo && git status --short | grep -v '^??' | head -3
-if ! git apply --check $out/patch.diff 2>/dev/null; then echo "PATCH DOES NOT APPLY to current /repo HEAD"; echo "(not applied)"; fi
+# SEED_REPO=<checkout of /repo's HEAD> applies the patch there instead of /repo (check.py builds against it via VERIF_REPO),
+# so that /repo stays untouched while something else uses it
+repo=${SEED_REPO:-/repo}
+echo "== applying to $repo and running checks: $*"
+cd $repo && git status --short | grep -v '^??' | head -3
+if ! git apply --check $out/patch.diff 2>/dev/null; then echo "PATCH DOES NOT APPLY to current HEAD of $repo"; echo "(not applied)"; fi
 git apply $out/patch.diff 2>/dev/null
-res=""
 for chk in "$@"; do
   echo "-- check $chk"
-  (cd /verif && python3 check.py $chk quick 2>&1 | grep -v "counter\|  set " | tail -6)
+  if [ "$repo" = /repo ]; then
+    (cd /verif && python3 check.py $chk quick 2>&1 | grep -v "counter\|  set " | tail -6)
+  else
+    (cd /verif && VERIF_REPO=$repo python3 check.py $chk quick 2>&1 | grep -v "counter\|  set " | tail -6)
+  fi
 done
-git -C /repo checkout -- . ; git -C /repo status --short | grep -v '^??' | head -3
+git -C $repo checkout -- . ; git -C $repo status --short | grep -v '^??' | head -3
 echo "with=$with without=$without" > $out/verify.txt
